@@ -48,6 +48,9 @@ def qvec(rng, n, kind, r=2):
         if r2:
             r2[0] = int(rng.choice(lo))
         return np.array((r1 + r2)[:n], dtype=dt)
+    if kind == 'many-sectors':
+        # up to ~90 distinct charges (many small sectors): anything with a limit on the number of sectors
+        return rng.integers(-45, 46, size=n)
     if kind == 'int8-small':
         # ordinary small charges stored as int8 (products with the bond dimension overflow for bonds >= 64)
         return rng.integers(-2, 3, size=n).astype(np.int8)
